@@ -26,7 +26,12 @@ round of twelve (`K01-r5` … `K12-r5`) in which each agent got all twenty
 properties and one *mechanism category* (aliasing of inputs, aliasing of
 outputs, caching, boundary values, foreign method sets, multi-hop drift, partial
 knowledge, positional wire data, multi-cause specifics, text encoding,
-caller-skip arithmetic, errors as arguments). Nothing from `/verif` was ever
+caller-skip arithmetic, errors as arguments), and a sixth round of twelve
+(`G01-r6` … `G12-r6`) in which each agent got all twenty properties and one
+*group of API functions* (leaf constructors, message wrappers, hint/detail,
+issue links / telemetry, domains, barriers, markers, unwrap / As, encode / decode
+entry points, formatting entry points, context tags / safe details,
+http / grpc / oserror). Nothing from `/verif` was ever
 shown. Each was **confirmed independently** before being kept
 (`tools/confirm_mutant.sh`): the patch applies to the clean tree, the library
 builds with and without the `verif` tag, the demonstration passes without the
@@ -45,7 +50,7 @@ suite is thin.
 Outcome: **every one of the {n} changes is reported as a VIOLATION by the quick
 tier of the check of the property it was written against** (seed 1). About a
 quarter of them were *missed* by the version of the monitor that existed when
-they arrived (round 1: 3, round 2: 8, round 3: 7, round 4: 2, round 5: 3) and led to the
+they arrived (round 1: 3, round 2: 8, round 3: 7, round 4: 2, round 5: 3, round 6: 4) and led to the
 strengthenings listed below the table; none led to loosening a check.
 
 | seeded | property | change | needs, in order to manifest | caught by (signatures) |
@@ -76,17 +81,24 @@ of the API.
 * **C10** — format-only kinds: `Newf` / `Wrapf` / `WithMessagef` with an escaped
   `%` and no argument (`A12-r4`); the nil sweep also runs 23 "rich argument" paths (tagged context,
   error-typed format arguments, non-empty link, package domain, `codes.OK` /
-  `Unknown`, empty message) (`C10-r3`).
+  `Unknown`, empty message) (`C10-r3`); the `handledmsgf0` kind,
+  `HandledWithMessagef` with an escaped `%` and no argument, which C06 and C07
+  use as well (`G06-r6`).
 * **C11** — the `tagsafe` kind: `Safe()`, nil and int tag values (`C11`); the
   `unimpld` kind: unimplemented error whose link has only a detail (`C11-r2`);
-  the zero code value, `codes.OK` / HTTP 0 (`C11-r3`).
+  the zero code value, `codes.OK` / HTTP 0 (`C11-r3`); the `domainnone` kind,
+  `WithDomain(e, NoDomain)` (`G05-r6`).
 * **C12** — every stage is observed twice: reporting must not consume what it
   reports (`C12-r2`).
 * **C13** — the builder overwrites its own slice after spreading it into `Join`
   (`C13-r2`).
 * **C14** — a leaf and a *wrapper* type with their own `As` methods; the wrapper
   declines every target but one, and the search must go on below it (`C14-r3`).
-* **C15** — the `file:line` prefix is predicted from the per-layer stacks
+  A value-typed, non-comparable third-party wrapper (`ncwrap`), and
+  `UnwrapAll` / `Cause` compared with the end of the `UnwrapOnce` walk on every
+  chain, not only on chains of `Cause()` wrappers (`G08-r6`).
+* **C15** — the error's domain (the exception module) is compared with the
+  model's domain, not only with `GetDomain` of the same object (`G05-r6`); the `file:line` prefix is predicted from the per-layer stacks
   instead of from `GetOneLineSource` itself, and a third-party style leaf with
   both `StackTrace()` and `SafeDetails()` is placed at the end of the main chain
   in one case in six (`C15-r2`).
@@ -106,7 +118,9 @@ of the API.
 * **C19** — a decoded stage: the accessor model must also hold on the error
   decoded at a knowing process (`C19-r2`); the slices returned by
   `GetTelemetryKeys` / `GetAllHints` / `GetAllDetails` / `GetAllIssueLinks` are
-  scribbled on and the error observed again (`K02-r5`).
+  scribbled on and the error observed again (`K02-r5`); third-party leaf and
+  wrapper types that implement `ErrorHinter` / `ErrorDetailer` themselves
+  (`hdleaf`, `hdwrap`, registered so that they survive the network) (`G03-r6`).
 
 The full cross matrix (every seeded change × every check, quick tier) is in
 `seeded/MATRIX.md`.
